@@ -14,7 +14,7 @@ from fractions import Fraction
 
 MODEL = {"quick": dict(MaxA=2), "thorough": dict(MaxA=3)}
 GEN = {"quick": dict(MaxN1=5, MaxN2=4, MaxN3=4, Mod1=1, Mod2=1, Mod2Big=8, Mod3=16),
-       "thorough": dict(MaxN1=6, MaxN2=5, MaxN3=5, Mod1=1, Mod2=1, Mod2Big=3, Mod3=40)}
+       "thorough": dict(MaxN1=6, MaxN2=5, MaxN3=5, Mod1=1, Mod2=1, Mod2Big=4, Mod3=60)}
 INVS = ["VerdictExact", "ClauseSensitive", "ScatterIdentity", "ArithOk"]
 ACTIONS = ["GenData", "AnswerFit", "AnswerProj", "AnswerInv"]
 TRACE_CONST = dict(MaxA=0)
@@ -102,7 +102,7 @@ def run(ctx):
     cases = vlib.tlc_gen(ctx, "Gen_Pca", {"constants": GEN[ctx.tier], "invariants": ["Emit"]})
     ctx.exhaustive = False
     if not ctx.quick:
-        cases += random_cases(ctx, 1500)
+        cases += random_cases(ctx, 800)
     vlib.number(cases)
     ctx.cases = len(cases)
     ctx.nontrivial = len({repr(c["inp"]["x"]) for c in cases if nontrivial(c)})
@@ -113,7 +113,7 @@ def run(ctx):
     ctx.rule = ("cases = multisets of n rows over the grids {-2..3} (p=1, n<=%d), {-1..2}^2 (p=2, n<=%d), {-1,0,1}^3 (p=3, n<=%d), "
                 "each as plain / offset / badly-scaled variant chosen by a hash, kept iff det M > 0 and sigma_min^2 >= 1/4 "
                 "(exact), larger sub-domains thinned by Hash %% Mod (p=2,n>=4: %d, p=3: %d), enumerated by TLC (Gen_Pca) "
-                "[+ 1500 seeded random matrices n<=20, p<=6, isotropic / anisotropic / low-rank+noise / offset / badly scaled, "
+                "[+ 800 seeded random matrices n<=20, p<=6, isotropic / anisotropic / low-rank+noise / offset / badly scaled, "
                 "in the thorough tier]; every case runs all embedding sizes 1..p x whitening off/on x 3 record layouts, "
                 "two probe rows and 6 invalid requests; non-trivial = p >= 2 (has truncated fits); distinct by record matrix"
                 % (GEN[ctx.tier]["MaxN1"], GEN[ctx.tier]["MaxN2"], GEN[ctx.tier]["MaxN3"], GEN[ctx.tier]["Mod2Big"],
